@@ -12,6 +12,7 @@ import SspModel.Model.Extract
 import SspModel.Model.Validate
 import SspModel.Model.FeH
 import SspModel.Model.Kroupa
+import SspModel.Model.Closed
 /-!
 # Line-protocol driver: one op per line in, one line out. Doubles cross as 16-hex-digit bit patterns.
 Runs the *same* model terms the theorems are about, at the `Float` instance.
@@ -187,6 +188,30 @@ def step (ws : List String) : String :=
         s!"ok {i} {toHex o.dNs} {o.defined} {r}"
       | .error .below => "err below"
       | .error .above => "err above"
+    | _ => "bad-op"
+  | "closed" :: t :: rest =>
+    -- closed <t> <A list> <alpha list> <cells list> <sev cfg tokens: ms tmsU a0 a1 a2 nmin fwd fns fbh wd ns bh ifmr>
+    let (As, r0) := takeList rest
+    let (al, r1) := takeList r0
+    let (cells, r2) := takeList r1
+    let (ms, r3) := takeList r2
+    let (tmsU, r4) := takeList r3
+    match r4 with
+    | a0 :: a1 :: a2 :: nmin :: fwd :: fns :: fbh :: r5 =>
+      let (wd, r6) := takeList r5
+      let (ns, r7) := takeList r6
+      let (bh, r8) := takeList r7
+      let (f, _) := parseIfmr r8
+      let c : SevCfg Float := ⟨pairs ms, tmsU, parseHex a0, parseHex a1, parseHex a2, parseHex nmin,
+        parseHex fwd, parseHex fns, parseHex fbh, pairs wd, pairs ns, pairs bh, f⟩
+      let bins : List (ClosedBin Float) := (List.zip (pairs ms) (List.zip al As)).map fun ((l, u), (a, A)) => ⟨l, u, a, A⟩
+      let m := mto c.a0 c.a1 c.a2 (parseHex t)
+      let stars := bins.map fun b => b.stars c.nmin m
+      match m with
+      | none => s!"{fl stars} | none"
+      | some mt =>
+        let r := closedRemnants c bins cells mt
+        s!"{fl stars} | {toHex mt} | {pairsOut r.wd} | {pairsOut r.ns} | {pairsOut r.bh} | {toHex r.lost}"
     | _ => "bad-op"
   | "esc" :: normM :: t :: tcc :: rate :: md :: rest =>
     let (sf, r1) := takeList rest
